@@ -9,7 +9,9 @@ ReactionRate, DiffusionRateDifference, Compute_dxdt, Apply_dxdt).
 What is proved here, for ALL networks / spaces / states (no bounds):
 * `euler_dxdt_eq_rate_graph`, `euler_step_graph` : on every graph (parallel edges and self-loops included) the Euler
   derivative of a non-chemostated entry IS `rate`, and one step is `x + dt·rate x`;
-* `euler_dxdt_eq_rate_grid`, `euler_step_grid` : the same on every grid, under the named geometry hypothesis
+* `euler_dxdt_eq_rate_grid_all`, `euler_step_grid_all` : the same on EVERY valid grid, unconditionally (round 2: the slot list
+  of `GetNeighborIndex` is proved equal to `Spec.gridNbrs` in Proofs/GridRate.lean, the involution in Proofs/Grid.lean);
+* `euler_dxdt_eq_rate_grid`, `euler_step_grid` : the conditional forms, kept: the same on every grid, under the named geometry hypothesis
   `EngGridOKAt g i` (the engine's neighbour table lists the Spec's six-neighbourhood and is involutive); the involution
   is discharged for every valid grid by `nbr_involutive` (Proofs/Grid.lean) in `euler_dxdt_eq_rate_grid_valid`, which
   leaves ONE hypothesis: the six slots of `GetNeighborIndex` list `Spec.gridNbrs` (same order).  It is decided by kernel
@@ -23,13 +25,25 @@ What is proved here, for ALL networks / spaces / states (no bounds):
 * source ties (`by decide` on regenerated text): rate-constant dimensions `(3n−3, −1, 1−n)`, the formulas of
   compute_reaction_rates / compute_diffusion_rates / the accumulation statements, get_value_in_env order, loop orders.
 
-NOT proved (covered by the correspondence + oracle of harness/props/c01.py on every run): `kinetics_eq_rate` /
-`dxdtf_eq_rate` in full (the Python neighbour enumeration with its `w > 1` guards against the Spec's six-neighbourhood;
-the exception-threading folds), hence `three_agree` as a single theorem; float rounding.
+Round 2 — the Python side:
+* `kinetics_eq_rate_grid` (every valid grid), `kinetics_eq_rate_graph_simple` (graphs without parallel edges / self-loops),
+  `kinetics_eq_rate_graph` (any graph, over the interfaces the Python loop visits): whenever `compute_dspeciesdt` returns,
+  the SI value it returns IS the rate law (partial correctness: the functions' error branches — dimension mismatch of a
+  hand-made state array, zero volume, zero distance — are modelled and simply excluded by "returns");
+* `kinetics_euler_agree_grid` / `_graph`: Python kinetics value = rate = Euler derivative of the marshalled system
+  (with `dxdtf_eq_rate` of Props/C01Dxdtf.lean, for size-1 systems, this is `three_agree`);
+NOT proved: totality of the kinetics functions on valid systems (that they do not raise) and the dimension of the final sum
+as one theorem (`pyRateLoop_dim` + `rate_dim_amount_per_time` give the reaction terms); the step from "tables agree
+pointwise" (`marshal_read_*`, `split_layout`) to `eulerDxdt` on the decoded arrays (covered by ops `marshal` + `euler_step`);
+float rounding.
 -/
 import Strengths.Proofs.Kinetics
 import Strengths.Proofs.Units
 import Strengths.Proofs.Grid
+import Strengths.Proofs.GridRate
+import Strengths.Proofs.KineticsPy
+import Strengths.Proofs.KineticsGrid
+import Strengths.Proofs.KineticsGraph
 
 namespace Strengths.C01
 open Strengths Strengths.Gen Strengths.Spec
@@ -106,6 +120,23 @@ theorem euler_dxdt_eq_rate_grid_valid (P : Phys) (nEnv : Nat) (g : GridShape) (h
   euler_dxdt_eq_rate_grid P nEnv g h chem x i s hh hvol hedge hfaces
     ⟨hnb, fun _ _ hn hget => (nbr_involutive hv hi hn hget).1⟩ hc
 
+/-- **grids, unconditionally**: for every valid grid (all `w, h, d ≥ 1`, all 8 boundary settings, periodic axes of length 1
+and 2 included), every cell, every network and state, `Compute_dxdt` of a free entry IS the rate law.  The geometry
+hypotheses are discharged by `engine_slots_are_spec_nbrs` (Proofs/GridRate.lean) and `nbr_involutive` (Proofs/Grid.lean). -/
+theorem euler_dxdt_eq_rate_grid_all (P : Phys) (nEnv : Nat) (g : GridShape) (h : Rat) (chem : Nat → Nat → Bool) (x : State)
+    (i s : Nat) (hv : g.valid = true) (hi : i < g.size) (hh : h ≠ 0) (hvol : ∀ j, P.vol j = h ^ 3) (hedge : ∀ j, P.edge j = h)
+    (hfaces : P.faces i = gridFaces g.w g.h g.d g.px g.py g.pz h i) (hc : chem i s = false) :
+    eulerDxdt (engOfPhysGrid P nEnv g h chem) x i s = rate P x.get s i :=
+  euler_dxdt_eq_rate_grid_valid P nEnv g h chem x i s hv hi hh hvol hedge hfaces (engine_slots_are_spec_nbrs hv hi) hc
+
+/-- one Euler step on any valid grid: `x₁ = x₀ + dt · rate x₀` on non-chemostated entries -/
+theorem euler_step_grid_all (P : Phys) (nEnv : Nat) (g : GridShape) (h : Rat) (chem : Nat → Nat → Bool) (x : State) (dt : Rat)
+    (i s : Nat) (hv : g.valid = true) (hi : i < g.size) (hh : h ≠ 0) (hvol : ∀ j, P.vol j = h ^ 3) (hedge : ∀ j, P.edge j = h)
+    (hfaces : P.faces i = gridFaces g.w g.h g.d g.px g.py g.pz h i) (hc : chem i s = false) :
+    (eulerStep (engOfPhysGrid P nEnv g h chem) dt x) i s = x i s + dt * rate P x.get s i :=
+  euler_step_grid P nEnv g h chem x dt i s hh hvol hedge hfaces
+    ⟨engine_slots_are_spec_nbrs hv hi, fun _ _ hn hget => (nbr_involutive hv hi hn hget).1⟩ hc
+
 /-- the geometry hypothesis is decidable on a concrete grid; instances by kernel evaluation (periodic axes of length 1, 2
 and 3, mixed boundary settings) — non-vacuity of the grid theorems -/
 def engGridOKCheck (g : GridShape) : Bool :=
@@ -119,6 +150,81 @@ example : engGridOKCheck ⟨3, 2, 1, true, false, true⟩ = true := by decide +k
 example : engGridOKCheck ⟨2, 2, 2, true, true, false⟩ = true := by decide +kernel
 example : engGridOKCheck ⟨1, 1, 1, true, true, true⟩ = true := by decide +kernel
 example : engGridOKCheck ⟨4, 3, 2, false, true, false⟩ = true := by decide +kernel
+
+/-! ## The Python kinetics functions realise the rate law -/
+
+/-- **kinetics_eq_rate, grids** — for every valid grid (all sizes and boundary settings), every network, every state, every
+entry: whenever `compute_dspeciesdt(apply_chemostats=False)` returns, the SI value it returns IS the rate law
+(`V = h³`: the cell edge is the cube root of the cell volume).  The Python neighbour enumeration (`w > 1` guards, Python
+`%`, `is_within_bounds`, `get_cell_index`) is proved to list the Spec's six-neighbourhood minus the cell itself
+(`pyGridNeighbors_eq`), the coordinate round trip to be the identity (`pyGridSrc_eq`). -/
+theorem kinetics_eq_rate_grid (sys : PySys) (g : GridShape) (vol : Q) (edge : Rat) (env : List Nat)
+    (hsp : sys.space = .grid g vol edge env) (hv : g.valid = true) (hV : vol.si = edge ^ 3)
+    (s i : Nat) (hi : i < g.size) (x : PyState) (q : Q) (h : pyDspeciesdt sys s i x false = .ok q) :
+    q.si = rate (physOfPy sys (fun k => gridFaces g.w g.h g.d g.px g.py g.pz edge k)) (stOf sys.space.size x) s i :=
+  kinetics_value_grid sys g vol edge env hsp hV s i x q h (pyGridSrc_eq hv i) (pyGridNeighbors_eq hv hi)
+
+/-- **kinetics_eq_rate, graphs** — whenever `compute_dspeciesdt(apply_chemostats=False)` returns, its SI value is the rate law
+over the interfaces the Python loop visits (`pyFaces`: one per distinct neighbour, through the first edge `get_edge` finds);
+on a graph without parallel edges and self-loops these are the Spec's interfaces up to order (`hperm`; the statement's own
+restriction — with parallel edges the Python functions use one of them only) -/
+theorem kinetics_eq_rate_graph (sys : PySys) (nodes : List PyNode) (edges : List PyEdge) (hsp : sys.space = .graph nodes edges)
+    (s i : Nat) (x : PyState) (q : Q) (h : pyDspeciesdt sys s i x false = .ok q)
+    (hperm : (pyFaces nodes.length edges i).Perm (graphFaces (edgesSI edges) i)) :
+    q.si = rate (physOfPy sys (fun k => graphFaces (edgesSI edges) k)) (stOf sys.space.size x) s i :=
+  kinetics_value_graph sys nodes edges hsp s i x q h hperm
+
+/-- **kinetics_eq_rate, graphs without parallel edges and self-loops** (`SimpleEdges`: the statement's own restriction for the
+Python graph functions): whenever `compute_dspeciesdt(apply_chemostats=False)` returns, its SI value IS the rate law over the
+Spec's interfaces -/
+theorem kinetics_eq_rate_graph_simple (sys : PySys) (nodes : List PyNode) (edges : List PyEdge) (hsp : sys.space = .graph nodes edges)
+    (hs : SimpleEdges nodes.length edges) (s i : Nat) (hi : i < nodes.length) (x : PyState) (q : Q)
+    (h : pyDspeciesdt sys s i x false = .ok q) :
+    q.si = rate (physOfPy sys (fun k => graphFaces (edgesSI edges) k)) (stOf sys.space.size x) s i :=
+  kinetics_value_graph sys nodes edges hsp s i x q h (simple_graph_faces nodes.length edges hs i hi)
+
+/-- the state of the engine model that corresponds to the species-major array of the Python side -/
+def stateOf (n : Nat) (x : PyState) : State := ⟨stOf n x⟩
+
+/-- **agreement on grids**: for a free entry of any valid grid, the value returned by the Python kinetics function, the rate
+law, and the derivative computed by the Euler engine on the marshalled system coincide (exact arithmetic) -/
+theorem kinetics_euler_agree_grid (sys : PySys) (g : GridShape) (vol : Q) (edge : Rat) (env : List Nat)
+    (hsp : sys.space = .grid g vol edge env) (hv : g.valid = true) (hV : vol.si = edge ^ 3) (he : edge ≠ 0)
+    (nEnv : Nat) (chem : Nat → Nat → Bool) (s i : Nat) (hi : i < g.size) (hc : chem i s = false)
+    (x : PyState) (q : Q) (h : pyDspeciesdt sys s i x false = .ok q) :
+    q.si = rate (physOfPy sys (fun k => gridFaces g.w g.h g.d g.px g.py g.pz edge k)) (stOf sys.space.size x) s i ∧
+    eulerDxdt (engOfPhysGrid (physOfPy sys (fun k => gridFaces g.w g.h g.d g.px g.py g.pz edge k)) nEnv g edge chem)
+        (stateOf sys.space.size x) i s = q.si := by
+  have h1 := kinetics_eq_rate_grid sys g vol edge env hsp hv hV s i hi x q h
+  refine ⟨h1, ?_⟩
+  rw [h1]
+  have hvol : ∀ j, (physOfPy sys (fun k => gridFaces g.w g.h g.d g.px g.py g.pz edge k)).vol j = edge ^ 3 := fun j => by
+    show (sys.space.volOf j).si = _
+    rw [hsp]; exact hV
+  have hedge : ∀ j, (physOfPy sys (fun k => gridFaces g.w g.h g.d g.px g.py g.pz edge k)).edge j = edge := fun j => by
+    show sys.space.edgeOf j = _
+    rw [hsp]; rfl
+  exact euler_dxdt_eq_rate_grid_all _ nEnv g edge chem (stateOf sys.space.size x) i s hv hi he hvol hedge rfl hc
+
+/-- **agreement on graphs** (no parallel edges / self-loops for the Python side: `hperm`) -/
+theorem kinetics_euler_agree_graph (sys : PySys) (nodes : List PyNode) (edges : List PyEdge) (hsp : sys.space = .graph nodes edges)
+    (nEnv : Nat) (chem : Nat → Nat → Bool) (s i : Nat) (hc : chem i s = false) (hVi : (sys.space.volOf i).si ≠ 0)
+    (x : PyState) (q : Q) (h : pyDspeciesdt sys s i x false = .ok q)
+    (hperm : (pyFaces nodes.length edges i).Perm (graphFaces (edgesSI edges) i)) :
+    q.si = rate (physOfPy sys (fun k => graphFaces (edgesSI edges) k)) (stOf sys.space.size x) s i ∧
+    eulerDxdt (engOfPhysGraph (physOfPy sys (fun k => graphFaces (edgesSI edges) k)) nEnv
+        (edges.map fun e => ⟨e.i, e.j, e.sfc.si, e.dst.si⟩) chem) (stateOf sys.space.size x) i s = q.si := by
+  have h1 := kinetics_eq_rate_graph sys nodes edges hsp s i x q h hperm
+  refine ⟨h1, ?_⟩
+  rw [h1]
+  have hf : (physOfPy sys (fun k => graphFaces (edgesSI edges) k)).faces i
+      = (graphSlots (edges.map fun e => (⟨e.i, e.j, e.sfc.si, e.dst.si⟩ : GEdge)) i).map faceOfSlot := by
+    have := graph_faces_are_slots (edges.map fun e => (⟨e.i, e.j, e.sfc.si, e.dst.si⟩ : GEdge)) i
+    simp only [List.map_map] at this
+    show graphFaces (edgesSI edges) i = _
+    rw [← this]
+    rfl
+  exact euler_dxdt_eq_rate_graph _ nEnv _ chem (stateOf sys.space.size x) i s hVi hf hc
 
 /-! ## Marshalling -/
 
